@@ -528,3 +528,95 @@ _site_contract(_RF + '_process_identifierlist', {'self': make_reindent, 'tlist':
                case='shape: 3 items', raises=[], tier='thorough')
 MORE_LAYOUT_CASES.append((_RF + '_process_identifierlist', 'shape: 2 items'))
 MORE_LAYOUT_CASES.append((_RF + '_process_identifierlist', 'shape: 3 items'))
+
+
+# --------------------------------------------------------------------------------- strip_whitespace routines on explicit shapes
+# (C06: only whitespace tokens are removed / blanked; C10: the normal form is reached.  Shape cases are independent of how
+# the routine is written - no loop ordinal, no local name - so they keep deciding after a rewrite of the routine.)
+
+def _with_inline_on_shapes(q):
+    """call-site model: on a node with explicit children the routine is executed in place; otherwise by its contract"""
+    prev = REG.get(q)
+
+    class _M:
+        @staticmethod
+        def model(ex, self_val, args, kw, st):
+            from pyvc.models import call_repo_inline, repo_fn_node, apply_contract
+            tl = args[0] if args else kw.get('tlist')
+            if isinstance(tl, Rec) and st.objs[tl.oid].get('__shape__') is True:
+                return call_repo_inline(ex, q, repo_fn_node(q), self_val, args, kw, st)
+            if prev is not None and getattr(prev, 'model', None):
+                return prev.model(ex, self_val, args, kw, st)
+            if prev is not None:
+                return apply_contract(ex, prev, q, repo_fn_node(q), self_val, args, kw, st)
+            raise OutsideSubset('call of %s on a node whose children are not known' % q)
+    REG[q] = _M
+
+
+_SW = 'sqlparse.filters.others.StripWhitespaceFilter.'
+_with_inline_on_shapes(_SW + '_stripws_default')
+
+
+def make_ws_idlist(ex, st):
+    """IdentifierList  A ws ws , ws B ws , ws ws C   (whitespace tokens: blanks or line breaks with arbitrary text)"""
+    from contracts.sql import _mk_argument, _mk_leaf, _mk_node, _ws1
+    T = ex.W.T
+    a, b, c = (_mk_argument(ex, st, n) for n in ('itemA', 'itemB', 'itemC'))
+    w = [_ws1(ex, st, 'ws%d' % i) for i in range(6)]
+    c1, c2 = (_mk_leaf(ex, st, None, n, (T.Punctuation,), value=',') for n in ('comma1', 'comma2'))
+    st.ghost.update({'A': a, 'B': b, 'C': c, 'C1': c1, 'C2': c2, 'W0': w[0], 'W1': w[1], 'W2': w[2], 'W3': w[3], 'W4': w[4]})
+    return _mk_node(ex, st, ex.W.sql.IdentifierList, 'tlist', [a, w[0], w[1], c1, w[2], b, w[5], c2, w[3], w[4], c])
+
+
+def _same(idx, name):
+    return 'tlist.tokens[%d] is %s' % (idx, name)
+
+
+_site_contract(_SW + '_stripws_identifierlist', {'self': make_filter('StripWhitespaceFilter'), 'tlist': make_ws_idlist},
+               case='shape: A ws ws , ws B ws , ws ws C', raises=[], serves=('C06', 'C10'))
+REG.cases[(_SW + '_stripws_identifierlist', 'shape: A ws ws , ws B ws , ws ws C')].ensures = [
+    # C06: every significant token is still there, in order; C10: no whitespace in front of a comma, single blanks
+    'len(tlist.tokens) == 8', _same(0, 'A'), _same(1, 'C1'), _same(2, 'W2'), _same(3, 'B'), _same(4, 'C2'),
+    _same(5, 'W3'), _same(6, 'W4'), _same(7, 'C'), "W2.value == ' '", "W3.value == ' '", "W4.value == ''",
+    'A.value == old(A.value)', 'B.value == old(B.value)', 'C.value == old(C.value)', "C1.value == ','", "C2.value == ','"]
+
+
+def make_ws_paren(ex, st):
+    """Parenthesis  ( ws ws X ws Y ws ws )"""
+    from contracts.sql import _mk_argument, _mk_leaf, _mk_node, _ws1
+    T = ex.W.T
+    x, y = _mk_argument(ex, st, 'itemX'), _mk_argument(ex, st, 'itemY')
+    st.assume(z3.Not(st.objs[y.oid]['is_group'].z))        # (a trailing group is the subject of the next case)
+    w = [_ws1(ex, st, 'ws%d' % i) for i in range(5)]
+    lp = _mk_leaf(ex, st, None, 'lp', (T.Punctuation,), value='(')
+    rp = _mk_leaf(ex, st, None, 'rp', (T.Punctuation,), value=')')
+    st.ghost.update({'X': x, 'Y': y, 'LP': lp, 'RP': rp, 'W2': w[2]})
+    return _mk_node(ex, st, ex.W.sql.Parenthesis, 'tlist', [lp, w[0], w[1], x, w[2], y, w[3], w[4], rp])
+
+
+_site_contract(_SW + '_stripws_parenthesis', {'self': make_filter('StripWhitespaceFilter'), 'tlist': make_ws_paren},
+               case='shape: ( ws ws X ws Y ws ws )', raises=[], serves=('C06', 'C10'))
+REG.cases[(_SW + '_stripws_parenthesis', 'shape: ( ws ws X ws Y ws ws )')].ensures = [
+    # C10: no blank after ( or before ); C06: the significant tokens are untouched
+    'len(tlist.tokens) == 5', _same(0, 'LP'), _same(1, 'X'), _same(2, 'W2'), _same(3, 'Y'), _same(4, 'RP'),
+    "W2.value == ' '", 'X.value == old(X.value)', 'Y.value == old(Y.value)', "LP.value == '('", "RP.value == ')'"]
+
+
+def make_ws_plain(ex, st):
+    """a plain group  ws A ws ws B ws"""
+    from contracts.sql import _mk_argument, _mk_node, _ws1
+    a, b = _mk_argument(ex, st, 'itemA'), _mk_argument(ex, st, 'itemB')
+    w = [_ws1(ex, st, 'ws%d' % i) for i in range(4)]
+    st.ghost.update({'A': a, 'B': b, 'W0': w[0], 'W1': w[1], 'W2': w[2], 'W3': w[3]})
+    return _mk_node(ex, st, ex.W.sql.Statement, 'tlist', [w[0], a, w[1], w[2], b, w[3]])
+
+
+_site_contract(_SW + '_stripws_default', {'tlist': make_ws_plain}, case='shape: ws A ws ws B ws', raises=[],
+               serves=('C06', 'C10'))
+REG.cases[(_SW + '_stripws_default', 'shape: ws A ws ws B ws')].ensures = [
+    'len(tlist.tokens) == 6', "W0.value == ''", "W1.value == ' '", "W2.value == ''", "W3.value == ' '",
+    'A.value == old(A.value)', 'B.value == old(B.value)', _same(1, 'A'), _same(4, 'B')]
+
+STRIPWS_SHAPE_CASES = [(_SW + '_stripws_identifierlist', 'shape: A ws ws , ws B ws , ws ws C'),
+                       (_SW + '_stripws_parenthesis', 'shape: ( ws ws X ws Y ws ws )'),
+                       (_SW + '_stripws_default', 'shape: ws A ws ws B ws')]
